@@ -108,3 +108,41 @@ Definition sd_completes_x (W G : Z) (l : list sd_req) (extra : list sd_sig) (q :
 Definition sd_outcome (W G : Z) (l : list sd_req) (extra : list sd_sig) : Z * Z * list bool * list bool :=
   (sd_exit_time_x W G l extra, sd_exit_code_x W G l extra,
    map (sd_accepted_x W G l extra) l, map (sd_completes_x W G l extra) l).
+
+(** * Robustness of a scenario against timing noise (used by the real-time driver and its comparison only)
+    The driver plans instants relative to the signal; the process's own instants (listener close, Shutdown's polls, deadline)
+    are relative to its reception of the signal, and each poll interval of http.Server.Shutdown is lengthened at random by up
+    to 10 %: the poll with nominal offset p from the close instant falls in the window [p, p + p/10]. A scenario is ROBUST when
+    no observable (accepted, completed, exit status) depends on the order of two instants that are closer than
+      150 ms  a planned instant (arrival, completion) against the close instant / a poll window / the deadline,
+       90 ms  the same for a completion that the driver synchronises to the process's own close instant (read from its log),
+      250 ms  the deadline against the next possible poll (both inside the process; under load both timers can have expired
+              when the goroutine runs, and then either may win).
+    [sd_robust] = false: the comparison accepts either outcome (none such may occur in the quick tier). *)
+Definition sd_m_plan : Z := 150 * sd_ms.
+Definition sd_m_sync : Z := 90 * sd_ms.
+Definition sd_m_deadline : Z := 250 * sd_ms.
+Definition sd_margin (synced : bool) : Z := if synced then sd_m_sync else sd_m_plan.
+
+(* nominal offsets of the polls that can matter for a Shutdown timeout T *)
+Definition sd_poll_offsets (T : Z) : list Z :=
+  sd_poll_early ++
+  map (fun j => 511 * sd_ms + 500 * sd_ms * Z.of_nat j) (seq 1 (Z.to_nat (Z.min 200 (T / (500 * sd_ms) + 2)))).
+
+Definition sd_robust (W G : Z) (l : list (sd_req * bool)) : bool :=
+  let c := sd_close W in
+  let T := sd_deadline W G in
+  let acc := filter (fun p => sd_accepted W (fst p)) l in
+  let wins := map (fun p => (c + p, c + p + p / 10)) (sd_poll_offsets (T - c)) in
+  (* a request that is certainly still in flight at the deadline: status 1 whatever the polls *)
+  let stuck := existsb (fun p => T <? sd_finish (fst p)) acc in
+  (* some poll certainly falls after every completion and certainly before the deadline: status 0 *)
+  let ok0 := existsb (fun w => forallb (fun p => sd_finish (fst p) + sd_margin (snd p) <=? fst w) acc
+                               && (snd w + sd_m_plan <=? T)) wins in
+  (* every poll certainly finds a request in flight or certainly comes after the deadline: drained, yet status 1 *)
+  let ok1 := forallb (fun w => existsb (fun p => snd w + sd_margin (snd p) <=? sd_finish (fst p)) acc
+                               || (T + sd_m_deadline <=? fst w)) wins in
+  forallb (fun p => sd_m_plan <=? Z.abs (sd_arrival (fst p) - c)) l
+  && forallb (fun p => sd_margin (snd p) <=? Z.abs (sd_finish (fst p) - T)) acc
+  && ((T - c) / (500 * sd_ms) <? 198)
+  && (stuck || ok0 || ok1).
